@@ -25,7 +25,7 @@ def obs_invariants():
 # property -> what is run.  gated/free: (families, episodes quick, episodes thorough)
 PLAN = {
     'C01': {'gated': (['basic', 'ctl', 'cancel', 'pool', 'batch', 'barrier'], 320, 6000), 'free': (['basic', 'ctl', 'pool'], 64, 1200), 'model': ['MC_core']},
-    'C02': {'gated': (['ctl', 'pool', 'basic', 'barrier'], 320, 6000), 'free': (['ctl', 'pool'], 64, 1200), 'model': ['MC_core']},
+    'C02': {'gated': (['ctl', 'pool', 'basic', 'barrier', 'bind2'], 400, 6000), 'free': (['ctl', 'pool'], 64, 1200), 'model': ['MC_core']},
     'C03': {'gated': (['basic', 'ctl', 'cancel', 'pool', 'barrier', 'batch'], 320, 6000), 'free': (['basic', 'ctl', 'pool', 'cancel'], 64, 1200), 'model': ['MC_core']},
     'C05': {'gated': (['handle', 'basic', 'cancel', 'batch'], 320, 6000), 'free': (['handle', 'batch'], 64, 1200), 'model': ['MC_core']},
     'C06': {'gated': (['barrier', 'ctl', 'cancel'], 320, 6000), 'free': (['barrier', 'ctl'], 64, 1200), 'model': ['MC_core']},
@@ -47,13 +47,13 @@ PLAN = {
 
 # property -> model configurations of spec/VarMQ.tla: (quick, thorough extra, liveness configs)
 MODEL_PLAN = {
-    'C01': (['barrier', 'cancel', 'conc2'], ['stop', 'restart', 'tune', 'purge', 'ratio', 'expiry', 'prio'], ['barrier']),
+    'C01': (['barrier', 'conc2'], ['cancel', 'stop', 'restart', 'tune', 'purge', 'ratio', 'expiry', 'prio'], ['barrier']),
     'C02': (['conc2', 'pause'], ['tune', 'restart', 'stop', 'ratio'], []),
-    'C03': (['barrier', 'purge', 'expiry'], ['stop', 'restart', 'cancel2', 'tune', 'was'], ['barrier', 'pause', 'purge', 'cancel']),
+    'C03': (['purge', 'expiry'], ['barrier', 'stop', 'restart', 'cancel2', 'tune', 'was'], ['barrier', 'pause', 'purge', 'cancel']),
     'C05': (['cancel', 'purge'], ['cancel2', 'conc2'], ['cancel']),
-    'C06': (['barrier', 'pause', 'purge'], ['stop2', 'pause2', 'was', 'cancel'], ['barrier', 'pause']),
+    'C06': (['barrier', 'pause'], ['purge', 'stop2', 'pause2', 'was', 'cancel'], ['pause', 'barrier']),
     'C09': (['pause'], ['pause2', 'stop', 'restart', 'was'], []),
-    'C10': (['cancel', 'purge', 'qclose'], ['cancel2'], []),
+    'C10': (['cancel', 'purge'], ['qclose', 'cancel2'], []),
     'C14': (['ctx0', 'pause'], ['ctx', 'stop', 'stop2', 'restart', 'was', 'pause2'], []),
     'C16': (['barrier', 'cancel'], ['conc2', 'purge', 'prio'], []),
     'C17': (['conc2', 'pause'], ['tune'], []),
@@ -71,9 +71,9 @@ def run_models(pid, tier, scratch):
 
     def one(nl):
         n, lv = nl
-        r = models.run_model(n, scratch, live=lv, workers=4 if tier == 'quick' else 8, timeout=1500)
+        r = models.run_model(n, scratch, live=lv, workers=vlib.NCPU, timeout=1500)
         return n, lv, r
-    with ThreadPoolExecutor(4 if tier == 'quick' else 2) as ex:
+    with ThreadPoolExecutor(1) as ex:
         for n, lv, r in ex.map(one, names):
             out.append({'config': n, 'liveness': lv, 'ok': bool(r.get('ok')), 'states': r.get('distinct', 0), 'transitions': r.get('generated', 0),
                         'depth': r.get('depth', 0), 'seconds': round(r['wall'], 1), 'violated': r.get('violated')})
@@ -83,7 +83,7 @@ def run_models(pid, tier, scratch):
     return out
 
 
-DS_FORMULAS = {'C04': 'C04_', 'C15': 'C15_', 'C17': 'C17_'}
+DS_FORMULAS = {'C01': 'C01_', 'C04': 'C04_', 'C15': 'C15_', 'C17': 'C17_'}
 DS_HARNESS = {'queues': ('internal/queues', ['ds_queues.go', 'ds_queues_rt.go'], '^TestVerifDS$'),
               'helpers': ('internal/helpers', ['ds_manager.go'], '^TestVerifManager$')}
 
@@ -94,12 +94,12 @@ def run_ds(pid, tier, seed, scratch):
     stats = {'models': [], 'logs': []}
     found = []
     for mod, cfg in (('QueueDS', 'MC_fifo'), ('MC_manager', 'MC_manager')):
-        if (pid == 'C04' and cfg == 'MC_manager') or (pid == 'C15' and cfg == 'MC_fifo'):
+        if (pid in ('C04', 'C01') and cfg == 'MC_manager') or (pid == 'C15' and cfg == 'MC_fifo'):
             continue
         r = vlib.run_tlc(mod, os.path.join(SPEC, 'cfg', cfg + '.cfg'), scratch, workers=4, timeout=300, tag=cfg)
         stats['models'].append({'config': cfg, 'ok': bool(r.get('ok')), 'states': r.get('distinct', 0), 'transitions': r.get('generated', 0), 'violated': r.get('violated')})
     runs = []
-    if pid in ('C04', 'C17'):
+    if pid in ('C04', 'C17', 'C01'):
         runs += [('queues', 'chunked', True, 200 if tier == 'quick' else 3000), ('queues', 'abstract', False, 3 if tier == 'quick' else 24)]
     if pid in ('C15', 'C17'):
         runs += [('helpers', 'mgr', False, 1)]
@@ -335,6 +335,8 @@ def recovery_prog(ep):
 
 def check_property(pid, tier, seed):
     t0 = time.time()
+    def mark(what):
+        log('[%6.1fs] %s' % (time.time() - t0, what))
     plan = PLAN[pid]
     invmap = obs_invariants()
     invs = sorted(i for i, p in invmap.items() if p == pid)
@@ -353,6 +355,7 @@ def check_property(pid, tier, seed):
                 violations.append((f, path))
                 print('VIOLATION property=%s replay=%s' % (pid, path), flush=True)
                 log('  formula %s failed on an operation log of the real data structure' % f)
+        mark('data structures done')
         # ---- programs
         fams, nq, nt = plan['gated']
         n = nq if tier == 'quick' else nt
@@ -361,10 +364,12 @@ def check_property(pid, tier, seed):
             gated += progs.life_exhaustive(plan['life_exhaustive'][0 if tier == 'quick' else 1], rng.randrange(1 << 30), pid + 'x')
         # ---- model checking (all interleavings of the small configurations) and TLC-generated schedules (M1)
         mres = run_models(pid, tier, scratch)
+        mark('models done')
         cov['model_configs'] = mres
         mq, mt, _ = MODEL_PLAN.get(pid, ([], [], []))
         m1progs, m1stats = m1.generate(mq + (mt if tier == 'thorough' else []), 24 if tier == 'quick' else 150, scratch, seed) if mq else ([], {})
         cov['m1'] = m1stats
+        mark('m1 generated')
         gated = gated + m1progs
         ffams, fq, ft = plan['free']
         nf = fq if tier == 'quick' else ft
@@ -391,7 +396,9 @@ def check_property(pid, tier, seed):
             eps += reps
             crashes += rcr
             cov['crash_points'] = {'cut_executions': len([e for e in eps if e['end']['result'] == 'cut']), 'recoveries': len(reps)}
+        mark('gated episodes done')
         feps, fcrashes = vlib.run_episodes(binary, free, scratch, gomaxprocs=0, tag='f')
+        mark('free episodes done')
         all_eps = eps + feps
         def run_codec(tag):
             # payload fidelity: generated values of many Go types through the four adapter-backed bind methods
@@ -428,6 +435,7 @@ def check_property(pid, tier, seed):
         idx = obs.write_obs(usable, tp, vlib.NCPU)
         nlines = idx[-1][1] if idx else 0
         bad, r1 = tlc_obs_collect(scratch, tp, invs, 'p1')
+        mark('verdict pass 1 done (%d lines)' % nlines)
         cov['obs_lines'] = nlines
         cov['obs_states'] = r1.get('distinct', 0)
         byep = {}
@@ -471,20 +479,21 @@ def check_property(pid, tier, seed):
             else:
                 notes.append('unreproduced: %s on %s' % (sorted(fs), epid))
                 print('INCONCLUSIVE property=%s formula(s) %s failed once on episode %s but not on re-execution' % (pid, sorted(fs), epid), flush=True)
+        mark('verdict pass 2 done')
         # ---- conformance pass: recorded gated traces must be behaviours of VarMQ.tla (Trace.tla)
         elig = [e for e in usable if e['prog']['sched']['kind'] != 'free' and conform.eligible(e['prog'])]
         rng2 = random.Random(seed)
         rng2.shuffle(elig)
-        sample = elig[:48 if tier == 'quick' else 600]
+        sample = sorted(elig[:60 if tier == 'quick' else 900], key=lambda e: len(e['events']))[:24 if tier == 'quick' else 600]
 
         def conf(e):
             try:
-                return e, conform.validate(e, scratch, e['prog']['id'], timeout=90)
+                return e, conform.validate(e, scratch, e['prog']['id'], timeout=40)
             except Exception as ex:
                 return e, {'accepted': None, 'error': str(ex)}
         acc = rej = unk = 0
         divs = []
-        with ThreadPoolExecutor(vlib.NCPU) as ex:
+        with ThreadPoolExecutor(8) as ex:
             for e, r in ex.map(conf, sample):
                 if r.get('accepted'):
                     acc += 1
@@ -496,6 +505,7 @@ def check_property(pid, tier, seed):
         cov['conformance'] = {'validated': acc + rej, 'accepted': acc, 'rejected': rej, 'undecided': unk, 'eligible': len(elig), 'divergences': divs[:10]}
         for d in divs[:5]:
             print('DIVERGENCE property=%s episode=%s line=%s event=%s (informational: the recorded trace is not a behaviour of spec/VarMQ.tla)' % (pid, d['episode'], d['line'], d['event'][:120]), flush=True)
+        mark('conformance done')
         cov['traces_validated_against_impl'] = len(usable)
         cov['samples'] = [{'program': usable[0]['prog'], 'first_events': [dict((k, v) for k, v in ev.items() if k != 'st') for ev in usable[0]['events'][:12]]}] if usable else []
         cov['formulas'] = invs
